@@ -1110,7 +1110,8 @@ static void walk_ports_recurse0(const Port& p, char* name_buffer,
 #ifdef NDEBUG
     (void)write_space;
 #endif
-    const char* hash_ptr = strchr(read_head + 1,'#');
+    //(read_head is at the name's end when the enumeration was its last part)
+    const char* hash_ptr = *read_head ? strchr(read_head + 1,'#') : NULL;
     ssize_t to_copy = hash_ptr ? hash_ptr - read_head : strlen(read_head);
 
     // Check write space is sufficient
